@@ -20,7 +20,14 @@ EXPLANATION = (
     "L-CV / L-NOTIFY / L-RECHECK for the writer's wait (C03): abort relies on the "
     "refused write waking a source blocked on a full ring. Absence of deadlock "
     "for every fill level and client state, and 'no leftovers' in the next "
-    "acquisition, are schedule/arithmetic questions and are not decided.")
+    "acquisition, are schedule/arithmetic questions and are not decided. "
+    "Thorough tier: API-SIM, a typestate simulation of the real acquire_* entry "
+    "points over the real controllers and HAL with a sequential worker model "
+    "(thread_create records a pending worker; 'run worker' and thread_join run "
+    "its body): every history of configure/start/run/stop/abort/get_state/"
+    "shutdown to a fixpoint; after stop/abort no created worker is un-joined, "
+    "camera and storage are stopped, the state is Armed, and a successful start "
+    "begins with no stale stop request and three workers.")
 
 
 def run(ctx, res):
@@ -41,6 +48,10 @@ def run(ctx, res):
         if site["loop"]:
             LR.rule_l_cv(la, res, site)
             LR.rule_l_notify(la, res, prog.func("channel_accept_writes"), site["cv"], site["reads"])
+    if ctx.tier == "thorough":
+        # multi-acquisition histories through the real API code
+        from ..apisim import run_rules
+        run_rules(prog, res, ("API-QUIESCE", "API-START-CLEAN"), "API-SIM")
     res.require_min("R-ABORT-SEQ", 3)
     res.require_min("R-STOP-SEQ", 5)
     res.require_min("R-THREAD-EXIT", 9)
